@@ -103,8 +103,10 @@ func firstDiff(a, b []byte) int {
 
 func runC08(c *Ctx) {
 	xlog.ReplaceGlobal(xlog.New(xlog.NewNopCore())) // the streams of the service cases log through the global logger
+	installHooks()
 	c.Res.Rule = "case = (stream metadata, parameter sets, frame sequence with NAL types/sizes/PTS/DTS, index at which the parameter sets become known) run through the real flv.Muxer+flv.Writer, " +
-		"or (type flags, tag sequence as delivered to one client — generated, or produced by the real muxer and replayed from the real FlvCache at every join point) run through the real flv.Writer; " +
+		"or the same plus (GOP caching, clients joining after k tags / frames, backlogged or not) run through the real flv.Muxer + cache.FlvCache + one flv.Writer per client, resp. a real media.Stream with HTTP-FLV / WebSocket-FLV clients; " +
+		"or (type flags, arbitrary tag sequence handed to one client) run through the real flv.Writer; " +
 		"distinct by the op line without the implementation's bytes; non-trivial when at least one media tag is written"
 	var batch []pending
 	var driverTime, implTime time.Duration
@@ -180,15 +182,22 @@ func runC08(c *Ctx) {
 	samples := 0
 	doMux := func(mc *muxCase) *muxResult {
 		ti := time.Now()
-		res := runMux(mc)
+		res := runMux(mc, waitBudget)
+		if res.hang {
+			// the budget of a wait expired: run the case once more, alone, with the long budget
+			c.Count("mux-wait-expired-rerun")
+			res = runMux(mc, longWaitBudget)
+		}
 		implTime += time.Since(ti)
 		impl := "err"
 		switch {
 		case res.newErr != "":
 			c.Count("mux-new-error")
 		case res.hang:
+			// still stuck after the long budget: the worker neither died nor came back to its queue
 			impl = Hx(res.out) + "+hang"
 			c.Count("mux-hang")
+			c.Find(Finding{Kind: "oracle", Class: "mux-worker-stuck", Case: mc.line("gen", "", nil), Impl: "the muxer worker did not come back to its queue within " + longWaitBudget.String() + " (two runs)", Spec: "every frame is taken and the worker survives"})
 		default:
 			impl = Hx(res.out)
 			if res.dead {
@@ -221,18 +230,12 @@ func runC08(c *Ctx) {
 		return &res
 	}
 	wsamples := 0
-	var svcOut []byte // set: the bytes come from the HTTP-FLV / WebSocket-FLV service instead of a bare flv.Writer
 	doWr := func(wc *wrCase) {
 		tags := make([]*flv.Tag, len(wc.tags))
 		for i, t := range wc.tags {
 			tags[i] = &flv.Tag{TagType: byte(t.typ), Timestamp: uint32(t.time), DataSize: uint32(len(t.data)), Data: t.data}
 		}
-		var res wrResult
-		if svcOut != nil {
-			res.out = svcOut
-		} else {
-			res = runWriter(byte(wc.flags), tags)
-		}
+		res := runWriter(byte(wc.flags), tags)
 		impl := Hx(res.out)
 		if res.newErr {
 			impl = "err"
@@ -248,21 +251,87 @@ func runC08(c *Ctx) {
 			c.Sample(detail + " out=" + shortHex(res.out))
 		}
 		add(pending{line: line, kind: "wr", gen: wc.gen, impl: impl, implHex: Hx(res.out), class: wrClass(wc), detail: detail, key: wc.line("gen", nil), nontri: len(wc.tags) > 0})
-		if wc.mc != nil && !res.newErr && res.panicked == "" {
-			// the same bytes against the join-aware statement (configuration before media, each
-			// media tag = a source frame of some tail of the sequence)
-			jl := wc.mc.line("join", "", res.out)
-			cls := "join-order-or-fidelity"
-			if wrClass(wc) != "wr" {
-				cls = wrClass(wc)
+	}
+	// a join scenario: one driver line per client
+	jsamples := 0
+	doJoin := func(jc *joinCase, res *muxResult) {
+		mc := jc.mc
+		var outs []joinOutcome
+		date, problem := "", ""
+		ti := time.Now()
+		if jc.via == "cache" {
+			if res == nil {
+				r := runMux(mc, waitBudget)
+				res = &r
 			}
-			add(pending{line: jl, kind: "join", gen: wc.gen + "-oracle", impl: impl, implHex: Hx(res.out), class: cls, detail: detail + " frames=" + frameSummary(wc.mc), key: jl, nontri: len(wc.tags) > 3})
+			if res.hang || res.newErr != "" {
+				return // the mux case itself reports it
+			}
+			flags := byte(flv.TypeFlagsVideo)
+			if mc.aac {
+				flags |= flv.TypeFlagsAudio
+			}
+			outs, problem = runJoinCache(jc, res.tags, flags)
+			date = res.date
+			if problem != "" {
+				c.Count("join-cache-writer-error")
+			}
+		} else {
+			var info svcInfo
+			outs, info, problem = runJoinService(jc, waitBudget)
+			if problem != "" {
+				c.Count("svc-wait-expired-rerun")
+				outs, info, problem = runJoinService(jc, longWaitBudget)
+			}
+			implTime += time.Since(ti)
+			if problem != "" {
+				// twice, the second time alone with the long budget: a worker or consumer is stuck
+				c.Find(Finding{Kind: "oracle", Class: "svc-stuck", Case: jc.line(0, 0, "", nil), Impl: problem + " (two runs, the second with a budget of " + longWaitBudget.String() + ")",
+					Spec: "every client is served", Detail: fmt.Sprintf("via=%s gop=%v sched=%s frames=%s", jc.via, jc.gop, jc.sched(), frameSummary(mc))})
+				return
+			}
+			date = info.date
+			for _, ct := range info.ctypes {
+				if ct != "video/x-flv" {
+					c.Count("http-flv-content-type-not-video/x-flv")
+				}
+			}
+		}
+		for i, o := range outs {
+			mode := "eager"
+			if jc.clients[i].lazy {
+				mode = "backlogged"
+			}
+			after := 0
+			for j := range outs {
+				if j != i && outs[j].k > o.k {
+					after++
+				}
+			}
+			c.Count(fmt.Sprintf("join-%s-gop=%v-%s-joined-after-%s-tags", jc.via, jc.gop, mode, bucket(o.k)))
+			if after > 0 && jc.clients[i].lazy {
+				c.Count(fmt.Sprintf("join-%s-backlogged-while-others-join", jc.via))
+			}
+			line := jc.line(i, o.k, date, o.out)
+			detail := fmt.Sprintf("via=%s gop=%v sched=%s client=%d(%s) joined-after-tags=%d codec=%s aac=%v known=%d frames=%s", jc.via, jc.gop, jc.sched(), i, mode, o.k, mc.codec, mc.aac, mc.known, frameSummary(mc))
+			if jsamples < 3 && len(line) < 3000 && o.k > 3 {
+				jsamples++
+				c.Sample(detail + " out=" + shortHex(o.out))
+			}
+			cls := fmt.Sprintf("join-%s-%s", jc.via, mode)
+			if after > 0 {
+				cls += "-others-join-later"
+			}
+			add(pending{line: line, kind: "join", gen: "join-" + jc.via, impl: Hx(o.out), implHex: Hx(o.out), class: cls, detail: detail, key: jc.line(i, o.k, "", nil), nontri: len(o.out) > 13})
 		}
 	}
 
 	// ---- corpus / replay first ----
 	for _, l := range c.CorpusLines() {
-		if mc := parseMuxLine(l); mc != nil {
+		if jc := parseJoinLine(l); jc != nil {
+			doJoin(jc, nil)
+			c.Count("corpus-join")
+		} else if mc := parseMuxLine(l); mc != nil {
 			doMux(mc)
 			c.Count("corpus-mux")
 		} else if wc := parseWrLine(l); wc != nil {
@@ -280,18 +349,20 @@ func runC08(c *Ctx) {
 	for i := 0; i < nMux; i++ {
 		mc := genMuxCase(c.Rng, c.Count, c.Thorough())
 		res := doMux(mc)
-		if i%3 == 0 && !res.dead && res.newErr == "" && (len(res.out) < 6000 || i%60 == 0) {
-			for _, wc := range joinCases(c, mc, res) {
-				doWr(wc)
+		if i%3 == 0 && !res.dead && !res.hang && res.newErr == "" && len(res.tags) > 0 && (len(res.out) < 6000 || i%60 == 0) {
+			for _, gop := range []bool{true, false} {
+				doJoin(genJoinCase(c.Rng, mc, "cache", gop, len(res.tags), res.tags), res)
 			}
 		}
 	}
-	// ---- the services end to end: a media.Stream, a client attached through ConsumeByHTTP /
+	// ---- the services end to end: a media.Stream, clients attached through ConsumeByHTTP /
 	//      ConsumeByWebsocket after k frames, cache_gop on and off ----
 	nSvc := c.Budget(250, 2500)
 	for i := 0; i < nSvc; i++ {
 		mc := genMuxCase(c.Rng, func(string) {}, false)
 		mc.known = 0
+		// the AAC packetizer's template is built when the stream is created, from what the SDP says
+		mc.asr, mc.ass, mc.ach = 44100, 16, 2
 		if mc.codec == "other" || !ready(mc) || len(mc.frames) == 0 {
 			continue
 		}
@@ -304,28 +375,11 @@ func runC08(c *Ctx) {
 		if !okc {
 			continue
 		}
-		k := c.Rng.Intn(len(mc.frames) + 1)
-		gop, ws := c.Rng.Bool(), c.Rng.Chance(35)
-		sr := runService(mc, k, gop, ws)
-		kind := "http-flv"
-		if ws {
-			kind = "ws-flv"
+		via := "http"
+		if c.Rng.Chance(35) {
+			via = "ws"
 		}
-		if sr.problem != "" {
-			c.Find(Finding{Kind: "corr", Class: kind, Case: mc.line("gen", "", nil), Impl: sr.problem, Model: "a served client", Detail: fmt.Sprintf("k=%d gop=%v", k, gop)})
-			continue
-		}
-		c.Count(fmt.Sprintf("%s-joined-after-%s-frames-gop=%v", kind, bucket(k), gop))
-		if !ws && sr.ctype != "video/x-flv" {
-			c.Count("http-flv-content-type-not-video/x-flv")
-		}
-		sr.wc.mc = mc
-		svcOut = sr.out
-		if svcOut == nil {
-			svcOut = []byte{}
-		}
-		doWr(sr.wc)
-		svcOut = nil
+		doJoin(genJoinCase(c.Rng, mc, via, c.Rng.Bool(), len(mc.frames), nil), nil)
 	}
 	// ---- generated tag sequences through the real writer ----
 	nWr := c.Budget(3500, 30000)
@@ -395,42 +449,66 @@ func shorten(s string) string {
 	return s
 }
 
-// joinCases: the tags the real muxer produced for mc are fed to the real FlvCache as the stream
-// does (CachePack, then delivery); a client joining before tag k is handed PushTo's replay and
-// then the live tags k….  Source times of the tags are known from the frames.
-func joinCases(c *Ctx, mc *muxCase, res *muxResult) []*wrCase {
-	if startIndex(mc) < 0 || mc.known != 0 || len(res.tags) > 40 {
-		return nil
-	}
-	times, ok := tagTimes(mc, len(res.tags))
-	if !ok {
-		return nil // the mux comparison reports the disagreement
-	}
-	var out []*wrCase
-	flags := 4
-	if mc.aac {
-		flags = 5
-	}
-	for _, gop := range []bool{true, false} {
-		for k := 0; k <= len(res.tags); k++ {
-			if len(res.tags) > 10 && !c.Rng.Chance(30) {
-				continue
+// genJoinCase: one to four clients on one stream.  Join points (`n`: number of tags for
+// via=cache, of frames for the services) are drawn over the whole stream with the interesting
+// ones favoured: before anything, inside the configuration prefix, right after a key frame, at
+// the end.  A client is backlogged with probability 2/5; with several clients the earliest one
+// is backlogged half of the time, so that later joins happen while its replay is unwritten.
+func genJoinCase(r *Rng, mc *muxCase, via string, gop bool, n int, tags []*flv.Tag) *joinCase {
+	jc := &joinCase{mc: mc, gop: gop, via: via}
+	var keys []int // join points right after a key frame
+	if tags != nil {
+		for i, t := range tags {
+			if t.IsH2645KeyFrame() && !t.IsH2645SequenceHeader() {
+				keys = append(keys, i+1)
 			}
-			wc := deliveredCase(res.tags, times, k, gop, flags)
-			wc.mc = mc
-			wc.gen = "join"
-			if gop {
-				wc.gen = "join-gop"
+		}
+	} else {
+		for i, f := range mc.frames {
+			if f.mt == 0 && len(f.payload) > 0 && isKeyNal(mc.codec, f.payload[0]) {
+				keys = append(keys, i+1)
 			}
-			c.Count(fmt.Sprintf("%s-replayed-%s", wc.gen, bucket(wc.replayed)))
-			for _, t := range wc.tags {
-				if t.time < wc.tags[0].time {
-					c.Count(wc.gen + "-has-tag-older-than-first")
-					break
-				}
-			}
-			out = append(out, wc)
 		}
 	}
-	return out
+	nc := 1 + r.Intn(2)
+	if r.Chance(35) {
+		nc = 3 + r.Intn(2)
+	}
+	for i := 0; i < nc; i++ {
+		var at int
+		switch x := r.Intn(100); {
+		case x < 10:
+			at = 0
+		case x < 20:
+			at = r.Intn(4)
+		case x < 45 && len(keys) > 0:
+			at = keys[r.Intn(len(keys))] + r.Intn(3)
+		case x < 52:
+			at = n
+		default:
+			at = r.Intn(n + 1)
+		}
+		if at > n {
+			at = n
+		}
+		jc.clients = append(jc.clients, joinClient{at: at, lazy: r.Chance(40)})
+	}
+	if nc > 1 && r.Chance(50) {
+		first := 0
+		for i, cl := range jc.clients {
+			if cl.at < jc.clients[first].at {
+				first = i
+			}
+		}
+		jc.clients[first].lazy = true
+	}
+	return jc
+}
+
+func isKeyNal(codec string, b0 byte) bool {
+	if codec == "h265" {
+		t := (b0 >> 1) & 0x3f
+		return t >= 16 && t <= 21
+	}
+	return b0&0x1f == 5
 }
